@@ -1,4 +1,5 @@
 import IrefVerif.Lemmas.SplitModel
+import IrefVerif.Model.RelClass
 
 /-!
 # Uniqueness of the decomposition
@@ -12,11 +13,6 @@ set_option linter.unusedSimpArgs false
 
 namespace IrefVerif.Lemmas
 open IrefVerif.Spec IrefVerif.Model.Parse
-
-/-- the first segment of a path contains `:` (same recursion as `first_segment_contains_colon`) -/
-def fsc : Text → Bool
-  | [] => false
-  | c :: l => if c == cColon then true else if c == cSlash then false else fsc l
 
 structure WF (P : Spec.Parts) : Prop where
   scheme : ∀ s, P.scheme = some s → s ≠ [] ∧ ∀ c ∈ s, nCSQH c = true
